@@ -232,6 +232,15 @@ m("C01-i", "C01", "libwallet/src/api_impl/foreign.rs", "\t\tlet parent_key_id = 
 
 m("C01-j", "C01", "libwallet/src/internal/tx.rs", "\t// with amount_includes_fee the recipient amount is the requested amount less the fee\n\tslate.amount = amount;\n", "\tlet _ = amount;\n", "C01.R9")
 
+m("C04-r9a", "C04", "libwallet/src/api_impl/owner.rs", "\t\t\t\t\t&& o.tx_log_entry == Some(id)\n\t\t\t\t\t&& o.status == OutputStatus::Unconfirmed\n", "\t\t\t\t\t&& o.tx_log_entry == Some(id)\n\t\t\t\t\t&& o.status != OutputStatus::Spent\n", "C04.R")
+m("C04-r9c", "C04", "libwallet/src/api_impl/owner.rs", "\t\t\tif change_pending {\n\t\t\t\tcontinue;\n\t\t\t}\n", "\t\t\tif change_pending || tx.ttl_cutoff_height.is_some() {\n\t\t\t\tcontinue;\n\t\t\t}\n", "C04.R9")
+m("C11-r8", "C11", "libwallet/src/internal/tx.rs", "\t\t// the account the transaction was sent from, not whichever is active now\n\t\tlet parent_key_id = context.parent_key_id.clone();\n\t\tlet excess", "\t\tlet parent_key_id = wallet.parent_key_id();\n\t\tlet excess", "C11.R8")
+m("C15-r6", "C15", "libwallet/src/internal/scan.rs", "\tlet max_child_index = *found_parents.get(&parent_key_id).unwrap();\n\tif output.n_child >= max_child_index {\n\t\tfound_parents.insert(parent_key_id, output.n_child);\n\t}\n", "\tfound_parents.insert(parent_key_id, output.n_child);\n", "C15.R6")
+m("C15-r6b", "C15", "libwallet/src/internal/scan.rs", "\t\tif deffo.n_child > *max_child_index {\n\t\t\t*max_child_index = deffo.n_child;\n\t\t}\n", "\t\t*max_child_index = deffo.n_child;\n", "C15.R6")
+m("C15-r7", "C15", "libwallet/src/internal/scan.rs", "\t\tlet max_child_index = found_parents.entry(deffo.key_id.parent_path()).or_insert(0);\n\t\tif deffo.n_child > *max_child_index {\n\t\t\t*max_child_index = deffo.n_child;\n\t\t}\n", "", "C15.R7")
+m("C06-r7", "C06", "libwallet/src/api_impl/foreign.rs", "\t\ttx::update_stored_tx(&mut *w, keychain_mask, &context, &sl, false)?;\n\t\t{\n\t\t\tlet mut batch = w.batch(keychain_mask)?;\n\t\t\tbatch.delete_private_context(sl.id.as_bytes())?;\n\t\t\tbatch.commit()?;\n\t\t}\n", "\t\t{\n\t\t\tlet mut batch = w.batch(keychain_mask)?;\n\t\t\tbatch.delete_private_context(sl.id.as_bytes())?;\n\t\t\tbatch.commit()?;\n\t\t}\n\t\ttx::update_stored_tx(&mut *w, keychain_mask, &context, &sl, false)?;\n", "C06.R7")
+m("C11-r7", "C11", "libwallet/src/internal/tx.rs", "\t\tif t.tx_type == TxLogEntryType::TxReceived && is_invoiced {\n", "\t\tif t.tx_type == TxLogEntryType::TxReceived || is_invoiced {\n", "C11.R7")
+
 
 def for_property(prop):
     return [x for x in M if x["property"] == prop]
